@@ -1516,6 +1516,35 @@ static int run_faults(struct vf_rng *r, long idx)
 		}
 	}
 
+	/* B2: single-bit faults in two or three different text bytes of one row (sampled): the row has parity errors,
+	   however many, and is judged by the same rule as B (seeded C03-j: a gate that counts the damaged bytes modulo 2) */
+	if (p->kind == PK_ROW) {
+		long nB2 = 0;
+		for (b = 0; b < (vf_tier ? 24 : 8) && !F_HARD_FAILED(); b++) {
+			char what[96];
+			const char *bad;
+			int nb = vf_chance(r, 3, 4) ? 2 : 3, k, jj[3] = { 0, 0, 0 }, bb[3] = { 0, 0, 0 };
+			memset(mask, 0, sizeof mask);
+			for (k = 0; k < nb; k++) {
+				do jj[k] = vf_range(r, 2, 41); while (mask[jj[k]]);
+				bb[k] = (int)vf_below(r, 8);
+				mask[jj[k]] = (uint8_t)(1u << bb[k]);
+			}
+			snprintf(what, sizeof what, "byte %d bit %d and byte %d bit %d%s flipped", jj[0], bb[0], jj[1], bb[1], nb == 3 ? " and a third byte" : "");
+			run_faulted(pi, mask, &SC);
+			check_keys(&SC, p, pi, what);
+			need_s1(pi);
+			nB2++;
+			bad = check_parity_rule(&SC, pi, 0);
+			if (bad) {
+				char key[96];
+				snprintf(key, sizeof key, "model:C03:parity:row:%s", bad);
+				vf_fail(key, "%s: %s", fault_desc(p, pi, what), f_why);
+			} else vf_sig("kind=row role=row-text outcome=%d-damaged-bytes-contained", nb);
+		}
+		vf_count("faults_parity_in_several_bytes_of_a_row", nB2);
+	}
+
 	/* C: two bit errors inside one protected byte */
 	for (j = 0; j < 42 && !F_HARD_FAILED(); j++) {
 		role = byte_role(p, j);
